@@ -313,6 +313,16 @@ def load_known():
 
 
 # --------------------------------------------------------------------------------- main flow
+def judge(c, a, r):
+    """the oracle's verdict on one implementation result; a result the oracle cannot even take apart (wrong shape, wrong type) is a
+    failure of the implementation, not a crash of the harness"""
+    try:
+        return c.oracle(a, r)
+    except Exception as e:  # noqa
+        return "the result has not the documented form (%s: %s): %r" % (type(e).__name__, e, a if len(repr(a)) < 300 else repr(a)[:300])
+
+
+
 def run_property(prop, tier, seed, replay=None):
     t0 = time.time()
     rng = random.Random(seed)
@@ -385,7 +395,7 @@ def run_property(prop, tier, seed, replay=None):
     for c, a, r in zip(cases, answers, raws):
         if c.oracle is not None:
             oracle_evals += 1
-            msg = c.oracle(a, r)
+            msg = judge(c, a, r)
             if msg:
                 failures.append({"stream": c.stream, "payload": c.payload, "impl": a, "why": msg})
     # ---- known findings: a recorded finding is a statement about the algorithm the model describes, so an oracle failure counts as
@@ -423,7 +433,7 @@ def run_property(prop, tier, seed, replay=None):
                 continue
             a, r = c.impl()
             searched += 1
-            msg = c.oracle(a, r)
+            msg = judge(c, a, r)
             if msg:
                 f = {"stream": c.stream, "payload": c.payload, "impl": a, "why": msg}
                 agrees = False
@@ -555,7 +565,7 @@ def shrink_failure(prop, failure):
             try:
                 c = prop.build(cur["stream"], payload)
                 a, r = c.impl()
-                msg = c.oracle(a, r) if c.oracle else None
+                msg = judge(c, a, r) if c.oracle else None
             except Exception:  # noqa
                 msg = None
             if msg:
